@@ -15,15 +15,6 @@ def crvOf (c : Affine.Crv) : CurveFp := ⟨c.p, c.a, c.b, some c.h⟩
 def genOf (c : Affine.Crv) : Pt :=
   if c.jac then .jac ⟨crvOf c, c.gx, c.gy, 1, some c.n, true⟩ else .aff ⟨crvOf c, c.gx, c.gy, some c.n⟩
 
-/-- the lazily built table of the generator (`[]` for a legacy `Point`): building it is idempotent, so the value of
-every later multiplication is the same whether or not it was built before -/
-def tableOf (c : Affine.Crv) : List (Int × Int) :=
-  match genOf c with
-  | .jac G => match precomputeTable G with
-    | .ok t => t
-    | .error _ => []
-  | _ => []
-
 /-- `PointJacobi.x()` / `Point.x()` / `INFINITY.x()` (= None: every use is arithmetic, `TypeError`) -/
 def xOf : Pt → Res Int
   | .infinity => .error .typeError
@@ -35,16 +26,18 @@ def yOf : Pt → Res Int
   | .jac P => pjY P
   | .aff A => .ok A.y
 
-def ops (c : Affine.Crv) (table : List (Int × Int)) : PointOps Pt where
+/-- every multiplication is modelled on a fresh object (`pjMul`, `pjMulAdd`: table state `[]`): building the generator's
+table is idempotent and does not change any value returned later, so this is also what a warmed-up object returns -/
+def ops (c : Affine.Crv) : PointOps Pt where
   order := c.n
   p := c.p
   a := c.a
   b := c.b
   cofactorIsOne := c.h == 1
   genHasMulAdd := c.jac
-  mulG k := ptMulWith table (genOf c) k
+  mulG k := ptMulWith [] (genOf c) k
   mulAddG u1 Q u2 := match genOf c with
-    | .jac G => pjMulAddWith table [] G u1 Q u2
+    | .jac G => pjMulAdd G u1 Q u2
     | _ => .error .attributeError
   mul k Q := ptMulWith [] Q k
   add A B := ptAdd A B
